@@ -1,5 +1,5 @@
 """Family registry: which bounded-exhaustive families feed which property, per tier."""
-from . import gen
+from . import gen, gen2
 
 _cache = {}
 
@@ -13,10 +13,39 @@ def core_cases(max_body, **kw):
     return _cache[key]
 
 
-def c01_slice(tier):
+def ae_dbs(tier):
+    return gen.dbs_core_quick() if tier == "quick" else gen.dbs_core_thorough()
+
+
+def small_families(tier):
+    """(name, cases, dbs) for every non-core family."""
+    q = ae_dbs(tier)
+    out = []
+    out.append(("mutrec", gen2.family_mutrec(tier), q))
+    out.append(("multirec", gen2.family_multirec(tier), q))
+    out.append(("strat", gen2.family_strat(tier), q))
+    c, d = gen2.family_arith(tier)
+    out.append(("arith", c, d))
+    out.append(("agg", gen2.family_agg(tier), q))
+    c, d = gen2.family_aggtyped(tier)
+    out.append(("aggtyped", c, d))
+    out.append(("rec", gen2.family_rec(tier), q))
+    out.append(("adt", gen2.family_adt(tier), q))
+    c, d = gen2.family_str(tier)
+    out.append(("str", c, d))
+    out.append(("shape", gen2.family_shape(tier), q))
+    c, d = gen2.family_rangetyped(tier)
+    out.append(("rangetyped", c, d))
+    return out
+
+
+def c01_slice(tier, only=None):
     fams = []
     if tier == "quick":
         fams.append(("core2", core_cases(2), gen.dbs_core_quick()))
     else:
         fams.append(("core2", core_cases(2), gen.dbs_core_thorough()))
+    fams += small_families(tier)
+    if only:
+        fams = [f for f in fams if f[0] in only]
     return fams
